@@ -1,6 +1,6 @@
 (* Correspondence for C04 / C12 / C14 (shoot enum).
 
-   The harness (harness/enumrun.py) renders a package spec, runs the real
+   The harness (harness/enumrun.py + enumgen.py) renders a package spec, runs the real
    `shoot enum`, compiles what it generated and executes it through an
    in-package oracle.  One [case] = (package spec, type, flags, what the
    implementation did).  Here the model pipeline (Model/Enum.v) is run on the
@@ -354,8 +354,8 @@ Definition Pb14 (c : case) (o : obs) : bool :=
   let D := declared_obs c o in
   let xs := range_from 0 (Z.to_nat (o_bitn o)) in
   o_built o
-  && list_eqb String.eqb (o_bitstr o) (map (spec_bit_string c D) xs)
-  && forallb (fun xo => let '(x, (s, _)) := xo in String.eqb s (spec_bit_string c D x)) (o_points o)
+  && list_eqb String.eqb (o_bitstr o) (if f_bit (c_flags c) then map (spec_bit_string c D) xs else [])
+  && forallb (fun xo => let '(x, (s, _)) := xo in String.eqb s (spec_string c D x)) (o_points o)
   && forallb (fun fo =>
        let '(f, (hm, (adds, rems))) := fo in
        let hasb (y : Z) := Z.testbit hm y in
